@@ -112,7 +112,14 @@ def ifdata_table(prog):
             args = ev[2][1:] if ev[2] else []
             return "%s(%s)" % (nm.split("::")[-1], ", ".join(guards.fmt_terms(a, limit=2) for a in args[:3]))
         return None
-    return diag.table_for(prog, A, fids, eff)
+    t = diag.table_for(prog, A, fids, eff)
+    # the hand-written equality of IF_DATA trees: the condition under which eq() returns true
+    for fid, b in sorted(prog.bodies.items()):
+        if b.trait_item == "std::cmp::PartialEq::eq" and "a2ml::GenericIfData" in (b.impl_of or fid):
+            rows = diag.bool_rows(prog, A, fid)
+            if rows:
+                t[mir.strip_generics(fid)] = rows
+    return t
 
 
 def compare_ifdata(chk, rule, floor=10):
